@@ -437,3 +437,98 @@ func rateKey(h uint32, r map[int]uint64) string {
 }
 
 var _ = factom.FAAddress{}
+
+// rcdeTraffic keeps RCD-e (secp256k1) addresses funded and spending, so that
+// the heights around the activation of that key type carry such entries.
+func rcdeTraffic(rng *rand.Rand, g *world.Gen) func(uint32, *world.BlockSpec) {
+	f := newFollower(g)
+	return func(h uint32, bs *world.BlockSpec) {
+		if h < g.B.W.Spec.Config.Act["TxConv"] {
+			return
+		}
+		hs := f.funded(h, g.P.Users)
+		if len(hs) == 0 {
+			return
+		}
+		x := hs[rng.Intn(len(hs))]
+		if x.ref > world.AddrEthBase {
+			k := 10 + rng.Intn(g.P.Users)
+			bs.Tx = append(bs.Tx, txFrom(x.ref, nextNonce(), xfer(x.asset, 1+x.amt/uint64(4+rng.Intn(20)), world.AddrEthBase-k)))
+		}
+		n := 0
+		for _, y := range hs {
+			if y.ref <= world.AddrEthBase && n < 2 && rng.Intn(2) == 0 {
+				bs.Tx = append(bs.Tx, txFrom(y.ref, nextNonce(), xfer(y.asset, 1+y.amt/uint64(2+rng.Intn(5)), 10+rng.Intn(g.P.Users))))
+				n++
+			}
+		}
+	}
+}
+
+// nearActivation reports whether h is within two blocks before or one after
+// an activation height (an entry submitted at A-2 can execute at A-1, A, ...).
+func nearActivation(cfg world.Config, h uint32) bool {
+	for _, a := range cfg.Act {
+		if h+2 >= a && h <= a+1 {
+			return true
+		}
+	}
+	return false
+}
+
+// edgeTraffic makes the blocks around every activation height busy with every
+// kind of entry whose treatment changes at some activation: conversions into
+// every category of destination, PEG requests, RCD-e spends, transfers to the
+// burn and mint addresses. Off-by-one errors at an activation only show when
+// such an entry sits exactly on the edge.
+func edgeTraffic(rng *rand.Rand, g *world.Gen) func(uint32, *world.BlockSpec) {
+	acts := []func(uint32, *world.BlockSpec){everyCategory(rng, g), conversionMatrix(rng, g), pegRequests(rng, g), rcdeTraffic(rng, g), burnAddressTraffic(rng, g)}
+	return func(h uint32, bs *world.BlockSpec) {
+		if !nearActivation(g.B.W.Spec.Config, h) {
+			return
+		}
+		for _, a := range acts {
+			a(h, bs)
+			if rng.Intn(2) == 0 {
+				a(h, bs)
+			}
+		}
+	}
+}
+
+// everyCategory submits one conversion into each category of destination
+// (pFCT, PEG, a small asset, an ordinary asset, pUSD) from holders of some
+// other asset.
+func everyCategory(rng *rand.Rand, g *world.Gen) func(uint32, *world.BlockSpec) {
+	f := newFollower(g)
+	return func(h uint32, bs *world.BlockSpec) {
+		if h < g.B.W.Spec.Config.Act["TxConv"]-1 {
+			return
+		}
+		hs := f.funded(h, g.P.Users)
+		if len(hs) == 0 {
+			return
+		}
+		for _, dst := range []int{model.PFCT, model.PEG, smallDst[rng.Intn(len(smallDst))], 2 + rng.Intn(61), 2} {
+			// prefer a source that is neither PEG (unpriced in the early eras) nor pFCT
+			var best, ok []holding
+			for _, x := range hs {
+				if x.asset == dst {
+					continue
+				}
+				ok = append(ok, x)
+				if x.asset != model.PEG && x.asset != model.PFCT {
+					best = append(best, x)
+				}
+			}
+			if len(best) == 0 || rng.Intn(4) == 0 {
+				best = ok
+			}
+			if len(best) == 0 {
+				continue
+			}
+			x := best[rng.Intn(len(best))]
+			bs.Tx = append(bs.Tx, txFrom(x.ref, nextNonce(), world.TxPart{Asset: x.asset, Amt: 1 + x.amt/uint64(5+rng.Intn(100)), Conv: dst}))
+		}
+	}
+}
